@@ -591,6 +591,12 @@ def index_lookup(data, items):
 
     # np.searchsorted doesn't work on mixed types in Python3
 
+    # The lookup itself is one-dimensional, so n-dimensional input is
+    # flattened here and the result reshaped at the end
+    shape = np.shape(data)
+    if len(shape) > 1:
+        data = np.ravel(data)
+
     ndata, ncat = len(data), len(items)
     data = pd.DataFrame({'data': data, 'row': np.arange(ndata)})
     cats = pd.DataFrame({'items': items,
@@ -599,6 +605,8 @@ def index_lookup(data, items):
     m = pd.merge(data, cats, left_on='data', right_on='items')
     result = np.zeros(ndata, dtype=float) * np.nan
     result[np.array(m.row)] = m.cat_row
+    if len(shape) > 1:
+        result = result.reshape(shape)
     return result
 
 
